@@ -389,6 +389,7 @@ def raster_from(j):
 
 
 INPUT = {"changed": None}
+NOTES = {}
 
 
 def raster_pair(c):
@@ -837,6 +838,12 @@ def opt_tol(xs, k, best):
     For float32-exact data with exact float32 squares (integers below 4096, small lattices) this is about 1e-6 * best; for
     elevations 2000..5000 it is at most 2^-24 * x_1^2 <= 1.5 (mostly ~0.3) against SSDs of hundreds; `dp_tol` (1e-6 max|x|^2, the
     resolution assumed before this derivation) is 17 times the largest possible |e_1|."""
+    e1, ecast, table = tol_terms(xs, k, best)
+    return e1 + ecast + table
+
+
+def tol_terms(xs, k, best):
+    """(|e_1|, Ecast, table rounding = float32 storage + float64 evaluation) of `opt_tol`"""
     n = len(xs)
     m = max(abs(x) for x in xs)
     rng_ = max(xs) - min(xs)
@@ -847,7 +854,26 @@ def opt_tol(xs, k, best):
     with np.errstate(over="ignore"):
         sq = float(np.float32(float(x1)) * np.float32(float(x1)))
     e1 = abs(Fraction(sq) - x1 * x1) if math.isfinite(sq) else m * m
-    return e1 + ecast + 4 * k * U32 * (best + ecast + esq) + 8 * k * (n + 3) * n * U64 * m * m
+    return e1, ecast, 4 * k * U32 * (best + ecast + esq) + 8 * k * (n + 3) * n * U64 * m * m
+
+
+def resolvable(xs, k, best):
+    """can a programme with float32 tables tell a k-class partition of this sample from a degenerate one at all?
+    The tables' row of the one-element prefix is 0 in *every* column, i.e. {x_1} also counts as two, three ... classes at no
+    cost; such a path has fewer real classes (its break extraction then reads data[-1], data[-2]: the classes it induces can be
+    as bad as one class for everything) and is taken -- ties go to it -- as soon as the (k-1)-th class of x_2..x_n buys nothing
+    the tables can see: when the float32 images have fewer than k distinct values (integers above 2^24 collapse in pairs:
+    natural_breaks([[16777273, 16777259], [16777217, 16777271]], k=4) puts all four cells into class 0), or when
+    best_{k-2}(x~_2..x~_n) - best_{k-1}(x~_2..x~_n) is below the tables' rounding.  For samples that are float32 numbers with at
+    least k distinct values (every stream but `bigint` / `f32x` / non-float32 doubles) this is always true."""
+    xt = sorted(f32q(x) for x in xs)
+    if len(set(xt)) < k:
+        return False
+    if k >= 3 and len(xt) - 1 >= k - 1:
+        gain = optimum(xt[1:], k - 2) - optimum(xt[1:], k - 1)
+        if gain <= tol_terms(xs, k, best)[2]:
+            return False
+    return True
 
 
 def exact_dp_min(xs, k):
@@ -956,7 +982,9 @@ def check_jenks(r, c, rep_mat, rep_brk):
             groups.setdefault(i, []).append(x)
         cost = sum(ssd(g) for g in groups.values())
         best = optimum(X, k)
-        if cost > best + opt_tol(X, k, best):
+        if not resolvable(X, k, best):
+            r.tag("jenks:not-resolvable-in-float32-tables")
+        elif cost > best + opt_tol(X, k, best):
             r.fail("jenks:not-optimal", f"_run_jenks({[float(x) for x in X]}, {k}) = {kc}: within-class SSD {float(cost)}, "
                    f"the optimal partition has {float(best)}", c)
             return
@@ -1048,7 +1076,9 @@ def oracle_natural(c, a, st, out):
                 groups.setdefault(int(o), []).append(fr(v))
         cost = sum(ssd(g) for g in groups.values())
         best = optimum(fin, k)
-        if cost > best + opt_tol(fin, k, best):
+        if not resolvable(fin, k, best):
+            NOTES["unresolvable"] = NOTES.get("unresolvable", 0) + 1
+        elif cost > best + opt_tol(fin, k, best):
             return "jenks:not-optimal", (f"natural_breaks k={k}: classes {res} of {flat} have within-class SSD {float(cost)}, "
                                          f"the optimal partition has {float(best)}")
     return None
@@ -1167,6 +1197,8 @@ def eval_case_(r, c, drv_reply=None, stream=None):
     if kind == "natural_breaks":
         a, st, out = run_natural(c)
         bad = oracle_natural(c, a, st, out)
+        if NOTES.pop("unresolvable", 0):
+            r.tag("natural_breaks:not-resolvable-in-float32-tables")
         if bad:
             key, what = fail_key("natural_breaks", bad)
             r.fail(key, what, c)
